@@ -13,21 +13,21 @@ ALLPROPS = ["C01", "C02", "C04", "C06"]
 
 
 def mc_cfg(fam, maxlen, alphabet, nslices=1, slice_=0, base=1, export=True, maxcalls=400, maxdepth=150,
-           maxres=16, nameall=False, pinned_seq=False, pinned_any=False, invariants=None, deadlock=True, liveness=False):
+           maxres=16, nameall=False, wrap="none", twophase=False, pinned_seq=False, pinned_any=False, invariants=None, deadlock=True, liveness=False):
     inv = invariants or ["ReentryBound", "Complete", "StartsOK", "XorOutcome", "SentenceIff", "FurthestError",
-                         "AtMostOnceLRFree"]
+                         "AtMostOnceLRFree", "Transparent"]
     if export:
         inv = inv + ["Export"]
     t = "CONSTANTS PinnedSeqReset = %s  PinnedAnyDrop = %s\n" % (str(pinned_seq).upper(), str(pinned_any).upper())
     t += '  Fam = "%s"  MaxLen = %d  Alphabet = {%s}  Base = %d  NSlices = %d  Slice = %d\n' % (
         fam, maxlen, ", ".join(str(c) for c in alphabet), base, nslices, slice_)
-    t += "  MaxCalls = %d  MaxDepth = %d  MaxRes = %d  NameAll = %s  DoExport = %s\n" % (
-        maxcalls, maxdepth, maxres, str(nameall).upper(), str(export).upper())
+    t += '  MaxCalls = %d  MaxDepth = %d  MaxRes = %d  Wrap = "%s"  TwoPhase = %s  NameAll = %s  DoExport = %s\n' % (
+        maxcalls, maxdepth, maxres, wrap, str(twophase).upper(), str(nameall).upper(), str(export).upper())
     if liveness:
         t += "SPECIFICATION Spec\nPROPERTY Terminates\n"
     else:
         t += "INIT Init\nNEXT Next\n"
-    t += "CONSTRAINT Budget\nINVARIANTS %s\nPROPERTY CacheMonotone\nCHECK_DEADLOCK %s\n" % (" ".join(inv), str(deadlock).upper())
+    t += "CONSTRAINT Budget\nINVARIANTS %s\nPROPERTY CacheMonotoneMC\nCHECK_DEADLOCK %s\n" % (" ".join(inv), str(deadlock).upper())
     return t
 
 
